@@ -126,3 +126,7 @@ impl vstd::std_specs::iter::IteratorSpecImpl for Bits {
     open spec fn peek(&self, index: int) -> Option<bool> { None }
 }
 
+
+// trusted: a slice never has more than usize::MAX elements
+#[verifier::external_body]
+proof fn axiom_slice_len_bound(s: &[u8]) ensures s@.len() <= usize::MAX {}
